@@ -456,28 +456,39 @@ def ringsFilter (rings : List (Option Ring)) (n : Nat) : SssrRes :=
           | some cond => filterLoop2 n hold cond sssr
         else .raised
 
-/-- the candidate sequence `_c_set(*_make_pid(_bfs(_skin_graph(bonds))))`; `none` = one of the stages raised -/
-def pidCandidates (g : Adj) : Option (List (Option Ring)) :=
+/-- the intermediate values of one `_sssr` call, as the driver prints them -/
+structure SssrTrace where
+  paths : Option (List Path)            -- `_bfs(_skin_graph(bonds))`; `none` = raised
+  cands : Option (List (Option Ring))   -- the sequence `_c_set(*_make_pid(paths))` generates; `none` = a stage raised
+  final : SssrRes
+
+/-- `_sssr(bonds, n_sssr)` with its intermediate values -/
+def sssrTrace (g : Adj) (n : Nat) : SssrTrace :=
   match skinGraph g with
-  | none => none
+  | none => ⟨none, none, .raised⟩
   | some s =>
     match bfsPaths s with
-    | none => none
+    | none => ⟨none, none, .raised⟩
     | some paths =>
       match makePid paths with
-      | none => none
-      | some (p1, p2, d) => some (cSet p1 p2 d)
+      | none => ⟨some paths, none, .raised⟩
+      | some (p1, p2, d) =>
+        let cands := cSet p1 p2 d
+        ⟨some paths, some cands, ringsFilter cands n⟩
+
+/-- the candidate sequence `_c_set(*_make_pid(_bfs(_skin_graph(bonds))))`; `none` = one of the stages raised -/
+def pidCandidates (g : Adj) : Option (List (Option Ring)) := (sssrTrace g 0).cands
 
 /-- `_sssr(bonds, n_sssr)` -/
-def sssrPid (g : Adj) (n : Nat) : SssrRes :=
-  match pidCandidates g with
-  | none => .raised
-  | some cands => ringsFilter cands n
+def sssrPid (g : Adj) (n : Nat) : SssrRes := (sssrTrace g n).final
+
+/-- `Rings.sssr` with the trace of its `_sssr` call (no call, empty trace, when `rings_count` is 0) -/
+def sssrModelTrace (m : ChythonModel.Model.Mol) : SssrTrace :=
+  match ringsCount m with
+  | none => ⟨none, none, .raised⟩
+  | some rc => if rc == 0 then ⟨none, none, .ok []⟩ else sssrTrace (notSpecial m) rc.toNat
 
 /-- `Rings.sssr`: `_sssr(self.not_special_connectivity, self.rings_count) if self.rings_count else []` -/
-def sssrModel (m : ChythonModel.Model.Mol) : SssrRes :=
-  match ringsCount m with
-  | none => .raised
-  | some rc => if rc == 0 then .ok [] else sssrPid (notSpecial m) rc.toNat
+def sssrModel (m : ChythonModel.Model.Mol) : SssrRes := (sssrModelTrace m).final
 
 end ChythonModel.Model.C06
